@@ -318,8 +318,7 @@ fn judge_mesh(v: &[Point3], f: &[[u32; 3]], is_solid: bool, queries: &[Point3], 
         l.check("mesh: normal is that of a face attaining the minimum at the point", "", ok_n, mk, || format!("q {:?}: normal {:?}", q, sp.normal));
         if best > 1e-9 {
             let dev = m.measure_point_deviation(q, engeom::common::DistMode::ToPoint);
-            // below the routine's own coincidence threshold (1e-6) the direction falls back to the face normal
-            let ok = if best < 2e-6 { dev.value().abs() <= best + 1e-9 } else { (dev.value().abs() - best).abs() <= 1e-9 * (1.0 + best) };
+            let ok = (dev.value().abs() - best).abs() <= 1e-9 * (1.0 + best);
             l.check("mesh: point-mode deviation magnitude equals the distance", "", ok, mk, || format!("q {:?}: deviation {:e} distance {:e}", q, dev.value(), best));
             if best < 1e-3 {
                 l.bucket("query within 1e-3 of the surface");
@@ -549,6 +548,60 @@ pub fn judge(case: &Case, l: &mut Local) {
             }
             judge_mesh(&v, &f, false, &qs, case, l);
         }
+        "meshunit" => {
+            // the same height field and queries in microns and tens of kilometres: distances scale with the unit,
+            // closest points scale with it (where the minimiser is unique), caps and angle limits accept the same
+            let bits = case.size as u32 / 2;
+            let diag = case.size as u32 % 2;
+            let (v, f) = height_field(bits, diag);
+            let m1 = Mesh::new(v.clone(), f.clone(), false);
+            l.distinct(hash_of(&serde_json::to_string(case).unwrap()));
+            let mk = || serde_json::to_value(case).unwrap();
+            let gx = [-0.5, 0.5, 1.0, 1.5, 2.5];
+            let gz = [-1.0, 0.0, 0.5, 1.0, 2.0];
+            for u in [1e-6, 1e4] {
+                let vu: Vec<Point3> = v.iter().map(|p| Point3::from(p.coords * u)).collect();
+                let mu = Mesh::new(vu, f.clone(), false);
+                for x in gx {
+                    for y in gx {
+                        for z in gz {
+                            let q = Point3::new(x + 0.013, y - 0.007, z + 0.004);
+                            let qu = Point3::from(q.coords * u);
+                            l.eval();
+                            l.bucket("mesh queried at another length unit");
+                            let (p1, pu) = (m1.point_closest_to(&q), mu.point_closest_to(&qu));
+                            let (d1, du) = (d3(&p1, &q), d3(&pu, &qu));
+                            l.check("mesh: the closest distance scales with the length unit", "", (du - d1 * u).abs() <= 1e-9 * u * (1.0 + d1), mk, || format!("unit {:e} q {:?}: {} against {} at unit 1", u, q, du / u, d1));
+                            for cap in [0.25, 1.0, 1.4142135623730951] {
+                                if (d1 - cap).abs() < 1e-6 {
+                                    continue;
+                                }
+                                let (a, b) = (m1.project_with_max_dist(&q, cap).is_some(), mu.project_with_max_dist(&qu, cap * u).is_some());
+                                l.check("mesh: a distance cap given in another unit accepts the same queries", "", a == b, mk, || format!("unit {:e} q {:?} cap {}: {} against {} at unit 1 (distance {})", u, q, cap, b, a, d1));
+                                for ang in [0.2, 0.7853981633974483, 1.5] {
+                                    let (a, b) = (m1.project_with_tol(&q, cap, ang, None), mu.project_with_tol(&qu, cap * u, ang, None));
+                                    // acceptance on the boundary of the angle limit may fall either way
+                                    let angle_of = |m: &Mesh, r: &Option<(parry3d_f64::query::PointProjection, u32, parry3d_f64::shape::TrianglePointLocation)>, qq: &Point3| -> Option<f64> {
+                                        r.as_ref().and_then(|(pp, id, _)| m.tri_mesh().triangle(*id).normal().map(|n| n.angle(&(qq - pp.point))))
+                                    };
+                                    let an = angle_of(&m1, &a, &q).or(angle_of(&mu, &b, &qu));
+                                    let near = an.map(|x| (x - ang).abs() < 1e-6 || (x - (std::f64::consts::PI - ang)).abs() < 1e-6).unwrap_or(false);
+                                    // where the closest point lies on an edge or a vertex the face whose normal is
+                                    // used is a tie that either unit may break differently
+                                    use parry3d_f64::query::PointQueryWithLocation;
+                                    let on_face = matches!(m1.tri_mesh().project_local_point_and_get_location(&q, false).1 .1, parry3d_f64::shape::TrianglePointLocation::OnFace(..));
+                                    if a.is_some() != b.is_some() && (near || !on_face) {
+                                        l.gray("unit change on the boundary of the angle limit or with several nearest faces");
+                                    } else {
+                                        l.check("mesh: the angle-filtered projection given in another unit accepts the same queries", "", a.is_some() == b.is_some(), mk, || format!("unit {:e} q {:?} cap {} angle {}: {} against {} at unit 1", u, q, cap, ang, b.is_some(), a.is_some()));
+                                    }
+                                }
+                            }
+                        }
+                    }
+                }
+            }
+        }
         "bigmesh" => {
             // many-element meshes that change the shape of the bounding-volume tree
             let (v, f): (Vec<Point3>, Vec<[u32; 3]>) = match case.family.as_str() {
@@ -559,6 +612,42 @@ pub fn judge(case: &Case, l: &mut Local) {
                 }
                 "torus" => {
                     let (v, f, _, _) = crate::props::c13::build("torus");
+                    (v, f)
+                }
+                "nested" => {
+                    // a box with a box-shaped cavity: two nested closed surfaces in one mesh
+                    let (v, f, _, _) = crate::props::c13::build("hollow");
+                    (v, f)
+                }
+                "twosheets" => {
+                    // two nearly coincident sheets (a micron apart), the upper one with the other diagonals
+                    let n = 5usize;
+                    let mut v = Vec::new();
+                    for layer in 0..2 {
+                        for j in 0..=n {
+                            for i in 0..=n {
+                                v.push(Point3::new(i as f64 * 0.6, j as f64 * 0.6, 0.3 * ((i * 3 + j * 5) % 4) as f64 / 3.0 + 1e-6 * layer as f64));
+                            }
+                        }
+                    }
+                    let mut f = Vec::new();
+                    for layer in 0..2u32 {
+                        let off = layer * ((n + 1) * (n + 1)) as u32;
+                        for j in 0..n {
+                            for i in 0..n {
+                                let a = (j * (n + 1) + i) as u32 + off;
+                                let (b, c) = (a + 1, a + n as u32 + 1);
+                                let d = c + 1;
+                                if (i + j + layer as usize) % 2 == 0 {
+                                    f.push([a, b, d]);
+                                    f.push([a, d, c]);
+                                } else {
+                                    f.push([a, b, c]);
+                                    f.push([b, d, c]);
+                                }
+                            }
+                        }
+                    }
                     (v, f)
                 }
                 _ => {
@@ -645,7 +734,10 @@ pub fn cases(tier: Tier) -> Vec<Case> {
     for k in 0..1024usize {
         out.push(Case { kind: "heightfield".into(), verts: vec![], force_closed: false, family: String::new(), size: k, fine });
     }
-    for (fam, size) in [("sphere3", 0usize), ("torus", 0), ("grid", 6), ("grid", 13), ("grid", 24)] {
+    for k in (0..1024usize).step_by(if fine { 8 } else { 32 }) {
+        out.push(Case { kind: "meshunit".into(), verts: vec![], force_closed: false, family: String::new(), size: k + (k / 32) % 2, fine });
+    }
+    for (fam, size) in [("sphere3", 0usize), ("torus", 0), ("grid", 6), ("grid", 13), ("grid", 24), ("nested", 0), ("twosheets", 0)] {
         out.push(Case { kind: "bigmesh".into(), verts: vec![], force_closed: false, family: fam.into(), size, fine });
     }
     // an open mesh with a zero-area face (never flagged solid)
@@ -661,9 +753,9 @@ pub fn cases(tier: Tier) -> Vec<Case> {
 
 pub fn run(tier: Tier) -> i32 {
     let mut cx = Ctx::new("C02", tier, "exploration");
-    cx.rule = "every 2D lattice curve with <= 4 vertices (open/force-closed) x the half-integer query grid; 3D lattice curves x a 7^3 grid; 7 structured large polyline families x 15 sizes (5..5000 edges: every QBVH occupancy and depth) x grid + on-entity queries; all 512 height fields over a 3x3 grid x 2 diagonal patterns and 4 solids (non-solid with inside queries, flagged solid with outside queries) x query grid x 4 caps x 3 angle limits; reference model: brute force over every edge / face. distinct = distinct entities".into();
+    cx.rule = "every 2D lattice curve with <= 4 vertices (open/force-closed) x the half-integer query grid; 3D lattice curves x a 7^3 grid; 7 structured large polyline families x 15 sizes (5..5000 edges: every QBVH occupancy and depth) x grid + on-entity queries; all 512 height fields over a 3x3 grid x 2 diagonal patterns and 4 solids (non-solid with inside queries, flagged solid with outside queries) x query grid x 4 caps x 3 angle limits; many-element meshes incl. a box with a cavity (nested surfaces) and two sheets a micron apart; every 32nd (thorough: 8th) height field also in microns and tens of kilometres (distances, caps and angle limits must scale); reference model: brute force over every edge / face. distinct = distinct entities".into();
     cx.bounds = json!({"curve2_seq_len": tier.pick(4, 5), "curve3_seq_len": 3, "query_grid_step": tier.pick(0.5, 0.25), "large_sizes": gen::LARGE_SIZES, "caps": [0.25, 1.0, 1.4142135623730951, 10.0], "angles": [0.2, 0.7853981633974483, 1.5]});
-    cx.require(&["many-element mesh", "query within 1e-3 of the surface", "query on the entity", "query equidistant from several elements", "query with a unique nearest element", "structured large polyline", "non-solid mesh with inside queries", "mesh flagged solid, outside queries", "mesh queried before being moved into place", "curve with a coarse tolerance, queries projecting next to vertices", "closed polygon queried outside its vertices", "curve at another length unit"]);
+    cx.require(&["many-element mesh", "query within 1e-3 of the surface", "query on the entity", "query equidistant from several elements", "query with a unique nearest element", "structured large polyline", "non-solid mesh with inside queries", "mesh flagged solid, outside queries", "mesh queried before being moved into place", "curve with a coarse tolerance, queries projecting next to vertices", "closed polygon queried outside its vertices", "curve at another length unit", "mesh queried at another length unit"]);
     cx.assume("ties: any minimiser accepted; gray: distance within 1e-9 of the cap, zero offset (angle undefined), angle within 1e-9 of the acceptance boundary");
     cx.assume("inside queries are made on non-solid meshes only, as the quantifier says (is_solid has no effect on Mesh::new meshes)");
     let cs = cases(tier);
